@@ -194,7 +194,7 @@ def check_state(scn, st):
                        msg='conversion failed: %s\n%s\n%s' % (r.brief(), st.options, st.deck_text),
                        out='err:' + r.exc_type)
     t4 = t4read.parse(r.t4)
-    cls, msg = oracle.structural_cls(t4)
+    cls, msg = oracle.structural_cls(t4, st.options)
     if cls:
         return verdict(False, st, cls=cls, msg=msg + '\n' + st.deck_text + r.body[:1500], out=sha(r.body))
     stats = {'configs': {' '.join(st.options)}}
